@@ -98,88 +98,96 @@ pub fn parse_debug(source: &str, delimiters: Delimiters) -> Result<String, Error
     Ok(format!("{out:#?}"))
 }
 
-/// One instruction as `OPCODE\targ\targ…`. Strings are `{:?}`-escaped, constants are `Debug`
-/// of the value, bool vectors are strings of `0`/`1`.
-pub(crate) fn fmt_instr(i: &Instruction) -> String {
-    fn bits(v: &[bool]) -> String {
-        v.iter().map(|b| if *b { '1' } else { '0' }).collect()
+/// One instruction in a structured, crate-independent form: opcode name, string operands
+/// (variable / attribute / filter names, path elements, literal text), numeric operand (jump
+/// target or element count), constant operand, spread flags.
+#[derive(Debug, Clone, PartialEq)]
+pub struct VInstr {
+    pub op: &'static str,
+    pub strs: Vec<String>,
+    pub num: Option<usize>,
+    pub konst: Option<crate::Value>,
+    pub bits: Option<Vec<bool>>,
+}
+
+pub(crate) fn vinstr(i: &Instruction) -> VInstr {
+    fn mk(op: &'static str) -> VInstr {
+        VInstr { op, strs: Vec::new(), num: None, konst: None, bits: None }
     }
-    fn path(v: &[String]) -> String {
-        v.iter()
-            .map(|s| format!("{s:?}"))
-            .collect::<Vec<_>>()
-            .join("\t")
+    fn s(op: &'static str, x: &str) -> VInstr {
+        VInstr { strs: vec![x.to_string()], ..mk(op) }
+    }
+    fn n(op: &'static str, x: usize) -> VInstr {
+        VInstr { num: Some(x), ..mk(op) }
     }
     match i {
-        Instruction::LoadConst(v) => format!("LoadConst\t{v:?}"),
-        Instruction::LoadName(s) => format!("LoadName\t{s:?}"),
-        Instruction::LoadAttr(s) => format!("LoadAttr\t{s:?}"),
-        Instruction::LoadAttrOpt(s) => format!("LoadAttrOpt\t{s:?}"),
-        Instruction::BinarySubscript => "BinarySubscript".into(),
-        Instruction::BinarySubscriptOpt => "BinarySubscriptOpt".into(),
-        Instruction::Slice => "Slice".into(),
-        Instruction::SliceOpt => "SliceOpt".into(),
-        Instruction::WriteText(s) => format!("WriteText\t{s:?}"),
-        Instruction::WriteTop => "WriteTop".into(),
-        Instruction::Set(s) => format!("Set\t{s:?}"),
-        Instruction::SetGlobal(s) => format!("SetGlobal\t{s:?}"),
-        Instruction::Include(s) => format!("Include\t{s:?}"),
-        Instruction::BuildMap(n) => format!("BuildMap\t{n}"),
-        Instruction::BuildList(n) => format!("BuildList\t{n}"),
-        Instruction::BuildMapWithSpreads(v) => format!("BuildMapWithSpreads\t{}", bits(v)),
-        Instruction::BuildListWithSpreads(v) => format!("BuildListWithSpreads\t{}", bits(v)),
-        Instruction::CallFunction(s) => format!("CallFunction\t{s:?}"),
-        Instruction::RenderInlineComponent(s) => format!("RenderInlineComponent\t{s:?}"),
-        Instruction::RenderBodyComponent(s) => format!("RenderBodyComponent\t{s:?}"),
-        Instruction::ApplyFilter(s) => format!("ApplyFilter\t{s:?}"),
-        Instruction::RunTest(s) => format!("RunTest\t{s:?}"),
-        Instruction::RenderBlock(s) => format!("RenderBlock\t{s:?}"),
-        Instruction::Jump(t) => format!("Jump\t{t}"),
-        Instruction::PopJumpIfFalse(t) => format!("PopJumpIfFalse\t{t}"),
-        Instruction::JumpIfFalseOrPop(t) => format!("JumpIfFalseOrPop\t{t}"),
-        Instruction::JumpIfTrueOrPop(t) => format!("JumpIfTrueOrPop\t{t}"),
-        Instruction::Capture => "Capture".into(),
-        Instruction::EndCapture => "EndCapture".into(),
-        Instruction::StartIterate(b) => format!("StartIterate\t{}", *b as u8),
-        Instruction::StartIterateComprehension(b) => {
-            format!("StartIterateComprehension\t{}", *b as u8)
-        }
-        Instruction::Iterate(t) => format!("Iterate\t{t}"),
-        Instruction::StoreLocal(s) => format!("StoreLocal\t{s:?}"),
-        Instruction::StoreDidNotIterate => "StoreDidNotIterate".into(),
-        Instruction::Break => "Break".into(),
-        Instruction::PopLoop => "PopLoop".into(),
-        Instruction::AppendToList => "AppendToList".into(),
-        Instruction::Mul => "Mul".into(),
-        Instruction::Div => "Div".into(),
-        Instruction::FloorDiv => "FloorDiv".into(),
-        Instruction::Mod => "Mod".into(),
-        Instruction::Plus => "Plus".into(),
-        Instruction::Minus => "Minus".into(),
-        Instruction::Power => "Power".into(),
-        Instruction::LessThan => "LessThan".into(),
-        Instruction::GreaterThan => "GreaterThan".into(),
-        Instruction::LessThanOrEqual => "LessThanOrEqual".into(),
-        Instruction::GreaterThanOrEqual => "GreaterThanOrEqual".into(),
-        Instruction::Equal => "Equal".into(),
-        Instruction::NotEqual => "NotEqual".into(),
-        Instruction::StrConcat => "StrConcat".into(),
-        Instruction::In => "In".into(),
-        Instruction::Not => "Not".into(),
-        Instruction::Negative => "Negative".into(),
-        Instruction::LoadPath(p) => format!("LoadPath\t{}", path(p)),
-        Instruction::WritePath(p) => format!("WritePath\t{}", path(p)),
+        Instruction::LoadConst(v) => VInstr { konst: Some(v.clone()), ..mk("LoadConst") },
+        Instruction::LoadName(x) => s("LoadName", x),
+        Instruction::LoadAttr(x) => s("LoadAttr", x),
+        Instruction::LoadAttrOpt(x) => s("LoadAttrOpt", x),
+        Instruction::BinarySubscript => mk("BinarySubscript"),
+        Instruction::BinarySubscriptOpt => mk("BinarySubscriptOpt"),
+        Instruction::Slice => mk("Slice"),
+        Instruction::SliceOpt => mk("SliceOpt"),
+        Instruction::WriteText(x) => s("WriteText", x),
+        Instruction::WriteTop => mk("WriteTop"),
+        Instruction::Set(x) => s("Set", x),
+        Instruction::SetGlobal(x) => s("SetGlobal", x),
+        Instruction::Include(x) => s("Include", x),
+        Instruction::BuildMap(x) => n("BuildMap", *x),
+        Instruction::BuildList(x) => n("BuildList", *x),
+        Instruction::BuildMapWithSpreads(v) => VInstr { bits: Some(v.clone()), ..mk("BuildMapWithSpreads") },
+        Instruction::BuildListWithSpreads(v) => VInstr { bits: Some(v.clone()), ..mk("BuildListWithSpreads") },
+        Instruction::CallFunction(x) => s("CallFunction", x),
+        Instruction::RenderInlineComponent(x) => s("RenderInlineComponent", x),
+        Instruction::RenderBodyComponent(x) => s("RenderBodyComponent", x),
+        Instruction::ApplyFilter(x) => s("ApplyFilter", x),
+        Instruction::RunTest(x) => s("RunTest", x),
+        Instruction::RenderBlock(x) => s("RenderBlock", x),
+        Instruction::Jump(t) => n("Jump", *t),
+        Instruction::PopJumpIfFalse(t) => n("PopJumpIfFalse", *t),
+        Instruction::JumpIfFalseOrPop(t) => n("JumpIfFalseOrPop", *t),
+        Instruction::JumpIfTrueOrPop(t) => n("JumpIfTrueOrPop", *t),
+        Instruction::Capture => mk("Capture"),
+        Instruction::EndCapture => mk("EndCapture"),
+        Instruction::StartIterate(b) => n("StartIterate", *b as usize),
+        Instruction::StartIterateComprehension(b) => n("StartIterateComprehension", *b as usize),
+        Instruction::Iterate(t) => n("Iterate", *t),
+        Instruction::StoreLocal(x) => s("StoreLocal", x),
+        Instruction::StoreDidNotIterate => mk("StoreDidNotIterate"),
+        Instruction::Break => mk("Break"),
+        Instruction::PopLoop => mk("PopLoop"),
+        Instruction::AppendToList => mk("AppendToList"),
+        Instruction::Mul => mk("Mul"),
+        Instruction::Div => mk("Div"),
+        Instruction::FloorDiv => mk("FloorDiv"),
+        Instruction::Mod => mk("Mod"),
+        Instruction::Plus => mk("Plus"),
+        Instruction::Minus => mk("Minus"),
+        Instruction::Power => mk("Power"),
+        Instruction::LessThan => mk("LessThan"),
+        Instruction::GreaterThan => mk("GreaterThan"),
+        Instruction::LessThanOrEqual => mk("LessThanOrEqual"),
+        Instruction::GreaterThanOrEqual => mk("GreaterThanOrEqual"),
+        Instruction::Equal => mk("Equal"),
+        Instruction::NotEqual => mk("NotEqual"),
+        Instruction::StrConcat => mk("StrConcat"),
+        Instruction::In => mk("In"),
+        Instruction::Not => mk("Not"),
+        Instruction::Negative => mk("Negative"),
+        Instruction::LoadPath(p) => VInstr { strs: p.clone(), ..mk("LoadPath") },
+        Instruction::WritePath(p) => VInstr { strs: p.clone(), ..mk("WritePath") },
     }
 }
 
-/// A chunk as a list of `(formatted instruction, spans)`.
-pub type Listing = Vec<(String, Vec<Span>)>;
+/// A chunk as a list of `(instruction, spans)`.
+pub type Listing = Vec<(VInstr, Vec<Span>)>;
 
 fn listing(c: &Chunk) -> Listing {
     (0..c.len())
         .map(|i| {
             let (instr, spans) = c.get(i).expect("in range");
-            (fmt_instr(instr), spans.clone())
+            (vinstr(instr), spans.clone())
         })
         .collect()
 }
